@@ -478,6 +478,30 @@ class ProjGen:
         return out2
 
 
+def file_conflicts(expect):
+    """two rules give the same FILE (or link) destination different content / mode / target: contradictory
+    rules, outside what the property specifies (directories may be shared)"""
+    seen = {}
+    for e in expect:
+        if e['kind'] == 'dir':
+            continue
+        key = os.path.normpath(e['dest'])
+        attrs = (e['kind'], e.get('digest'), e.get('srcmode'), e.get('mode'), e.get('target'))
+        if seen.setdefault(key, attrs) != attrs:
+            return True
+    return False
+
+
+def gen_project(rng, idx, hostile=False, nhist=4):
+    """a generated project whose rules do not contradict each other (retry with fresh random choices)"""
+    for _ in range(40):
+        spec = ProjGen(rng, idx, hostile=hostile).build(nhist=nhist)
+        if not file_conflicts(spec['expect']):
+            return spec
+    spec['no_expect'] = True
+    return spec
+
+
 # ---------------------------------------------------------------------------- hand-picked corner projects
 def corpus_projects():
     """run first on every check: minimal projects for every clause and every candidate defect"""
@@ -893,11 +917,11 @@ def run(ctx):
     for sp in specs:
         sp['exec'] = True           # the corpus goes through a fresh `python meson.py` per step
     for i in range(nproj):
-        specs.append(ProjGen(rng, i).build())
+        specs.append(gen_project(rng, i))
         if i % 25 == 0:
             specs[-1]['exec'] = True
     for i in range(nhost):
-        specs.append(ProjGen(rng, 100000 + i, hostile=True).build(nhist=2))
+        specs.append(gen_project(rng, 100000 + i, hostile=True, nhist=2))
     # small exhaustive enumeration (thorough tier; a quarter of it in the quick tier)
     ex = exhaustive_projects()
     ctx.extra['exhaustive'] = thorough
